@@ -178,9 +178,9 @@ def lean_prove(prop_modules: list[str], extra_scan: Iterable[str] = ()) -> Proof
         rc, out, err = run(["lake", "env", "lean", apath], cwd=LEAN_DIR, timeout=1200)
     text = out + err
     # parse:  'X' depends on axioms: [a, b]   |   'X' does not depend on any axioms
-    for m in re.finditer(r"'([^']+)' depends on axioms: \[([^\]]*)\]", text, re.S):
+    for m in re.finditer(r"'(\S+?)' depends on axioms: \[([^\]]*)\]", text, re.S):
         res.axioms[m.group(1)] = [a.strip() for a in m.group(2).replace("\n", " ").split(",") if a.strip()]
-    for m in re.finditer(r"'([^']+)' does not depend on any axioms", text):
+    for m in re.finditer(r"'(\S+?)' does not depend on any axioms", text):
         res.axioms[m.group(1)] = []
     for t in thms:
         if t not in res.axioms:
